@@ -24,7 +24,7 @@ def plan(tier):
         if sc.is_core(cfg):
             tasks.append((cfg, T + 1 if tier == 'thorough' else T, None, False, 3))
         else:
-            tasks.append((cfg, T, 2 if tier == 'thorough' and cfg['alpha'] == F(1, 2) and cfg['n_inner'] < 3
+            tasks.append((cfg, T, 2 if tier == 'thorough' and cfg['alpha'] == F(1, 4) and cfg['n_inner'] < 3
                           and cfg['storage'] in ('Batch', 'Uniform', 'Geometric') and cfg['names'] != 'float'
                           else 1, True, asize))
     return tasks
